@@ -3,6 +3,7 @@
 Layers:
   rel   release profile (opt-level 2): the build whose answers decide behavioural verdicts
   dbg   opt-level 1 + debug-assertions + overflow-checks
+  unst  release with all unstable (MSC) features of ruma-events / ruma-common (C17 only)
   asan  nightly, -Zsanitizer=address
   miri  handled by vt/miri.py (cargo +nightly miri run)
 """
@@ -45,6 +46,8 @@ def binary_path(layer, bin="probe"):
         return os.path.join(TARGET, "release", bin)
     if layer == "dbg":
         return os.path.join(TARGET, "dbg", bin)
+    if layer == "unst":
+        return os.path.join(TARGET, "unst", "release", bin)
     if layer == "asan":
         return os.path.join(TARGET, "asan", "x86_64-unknown-linux-gnu", "release", bin)
     raise BuildError("unknown layer " + layer)
@@ -56,6 +59,10 @@ def _cmd(layer, bin="probe"):
         return ["cargo", "build", "--release", "--offline"] + sel, {}
     if layer == "dbg":
         return ["cargo", "build", "--profile", "dbg", "--offline"] + sel, {}
+    if layer == "unst":
+        # release build with every unstable (MSC) feature of ruma-events / ruma-common switched on
+        return ["cargo", "build", "--release", "--offline", "--features", "unstable",
+                "--target-dir", os.path.join(TARGET, "unst")] + sel, {}
     if layer == "asan":
         return (["cargo", "+nightly", "build", "--release", "--offline",
                  "--target", "x86_64-unknown-linux-gnu",
